@@ -298,3 +298,301 @@ func digitShortcutTestsWhatItPrints(c *Ctx, r *Report, rule string) {
 	}
 	r.check(len(bad) == 0, rule, "generateReader.ReadByte", c.pos(fn.Pos()), fmt.Sprintf("%d computed digit(s), each tested", sites), "%s: for a value of two digits the octet handed out is one beyond '9' (':' ';' '<' ...), so the generated name or RDATA is not the decimal number the template asks for", strings.Join(bad, "; "))
 }
+
+// specialOctetsPrintable: every octet isDomainNameLabelSpecial calls special is a printable ASCII character: the
+// printers ask "special?" before "printable?", so an octet outside 0x20..0x7e that is called special is printed as a
+// backslash and the raw octet instead of \DDD. Decided by walking the function for each of the 256 octet values.
+func specialOctetsPrintable(c *Ctx, r *Report, rule string) {
+	r.rule(rule, 1, "every octet isDomainNameLabelSpecial calls special is printable ASCII (walked for all 256 values)")
+	fn := c.ssaFunc("isDomainNameLabelSpecial")
+	if fn == nil || len(fn.Params) != 1 {
+		r.cerr(rule, "isDomainNameLabelSpecial", "function not found")
+		return
+	}
+	r.fn("isDomainNameLabelSpecial")
+	x := &scalarExec{pkg: fn.Pkg}
+	var bad, und []string
+	n := 0
+	for v := 0; v < 256; v++ {
+		res := x.run(fn, fn.Blocks[0], 0, map[ssa.Value]int64{fn.Params[0]: int64(v)}, 0)
+		if !res.Returned || len(res.Results) != 1 || !res.Decided[0] {
+			und = append(und, fmt.Sprintf("0x%02x", v))
+			continue
+		}
+		if res.Results[0] == 1 {
+			n++
+			if v < 0x20 || v > 0x7e {
+				bad = append(bad, fmt.Sprintf("0x%02x", v))
+			}
+		}
+	}
+	if len(und) > 0 {
+		r.undecided(rule, "isDomainNameLabelSpecial", c.pos(fn.Pos()), "the walk does not decide the octets %s", strings.Join(und, " "))
+		return
+	}
+	r.check(n > 0 && len(bad) == 0, rule, "isDomainNameLabelSpecial", c.pos(fn.Pos()), fmt.Sprintf("%d special octets, all printable", n), "the octets %s are called special: UnpackDomainName and sprintName print them as a backslash followed by the raw octet, not as \\DDD - the presentation form is no longer printable ASCII", strings.Join(bad, " "))
+}
+
+// optionBodyWhole: no EDNS0 option decoder cuts octets off the end of the option body: a slice of the body (or of a
+// slice of it) never has an upper bound of the form len(...) - k. The length of an option is OPTION-LENGTH; what is in
+// it is the option (a trailing NUL of EDE's EXTRA-TEXT, RFC 8914 s.2, is part of what was sent and is sent again).
+func optionBodyWhole(c *Ctx, r *Report, rule string) {
+	r.rule(rule, 14, "no EDNS0 option decoder drops octets from the end of the option body")
+	for _, nt := range c.implementers("EDNS0") {
+		name := nt.Obj().Name() + ".unpack"
+		fn := c.ssaFunc(name)
+		if fn == nil || len(fn.Params) < 2 {
+			continue
+		}
+		r.fn(name)
+		body := fn.Params[1]
+		var bad []string
+		for _, f := range localCallees(c, fn, 0) {
+			allInstrs(f, func(in ssa.Instruction) {
+				sl, ok := in.(*ssa.Slice)
+				if !ok || sl.High == nil || !sliceOf(sl.X)[body] {
+					return
+				}
+				hi, ok := stripConv(sl.High).(*ssa.BinOp)
+				if !ok || hi.Op != token.SUB {
+					return
+				}
+				k, isK := constIntOf(hi.Y)
+				if !isK || k <= 0 {
+					return
+				}
+				isLen := false
+				for v := range sliceOf(hi.X) {
+					if cl, isCall := v.(*ssa.Call); isCall && calleeNameSSA(&cl.Call) == "builtin.len" && sliceOf(cl.Call.Args[0])[body] {
+						isLen = true
+					}
+				}
+				if isLen {
+					bad = append(bad, fmt.Sprintf("%s: the body is cut %d octet(s) short of its end", c.pos(sl.Pos()), k))
+				}
+			})
+		}
+		r.check(len(bad) == 0, rule, name, c.pos(fn.Pos()), "the body is read to its end", "%s: an option whose last octet(s) have the value tested for comes back shorter than it was sent (unpack then pack does not reproduce the message)", strings.Join(bad, "; "))
+	}
+}
+
+// packSizeRefusalExact: where packBufferWithCompressionMap refuses a message because of a length it computed, the
+// refusal implies that the message is longer than MaxMsgSize octets: a message of exactly 65535 octets is packed.
+func packSizeRefusalExact(c *Ctx, r *Report, rule string) {
+	r.rule(rule, 1, "Pack refuses by size only messages longer than MaxMsgSize")
+	fn := c.ssaFunc("Msg.packBufferWithCompressionMap")
+	if fn == nil {
+		r.cerr(rule, "Msg.packBufferWithCompressionMap", "function not found")
+		return
+	}
+	r.fn("Msg.packBufferWithCompressionMap")
+	maxSize, okM := c.constInt("MaxMsgSize")
+	if !okM {
+		r.cerr(rule, "MaxMsgSize", "constant not found")
+		return
+	}
+	isLenCall := func(v ssa.Value) bool {
+		cl, ok := v.(*ssa.Call)
+		if !ok {
+			return false
+		}
+		switch calleeNameSSA(&cl.Call) {
+		case "msgLenWithCompressionMap", "(Msg).Len":
+			return true
+		}
+		return false
+	}
+	// v = L + d for a length call L
+	var linear func(v ssa.Value) (int64, bool)
+	linear = func(v ssa.Value) (int64, bool) {
+		v = stripConv(v)
+		if isLenCall(v) {
+			return 0, true
+		}
+		if b, ok := v.(*ssa.BinOp); ok && (b.Op == token.ADD || b.Op == token.SUB) {
+			if k, isK := constIntOf(b.Y); isK {
+				if d, ok := linear(b.X); ok {
+					if b.Op == token.SUB {
+						k = -k
+					}
+					return d + k, true
+				}
+			}
+			if k, isK := constIntOf(b.X); isK && b.Op == token.ADD {
+				if d, ok := linear(b.Y); ok {
+					return d + k, true
+				}
+			}
+		}
+		return 0, false
+	}
+	errorOnly := func(b *ssa.BasicBlock) bool {
+		// every return reachable from b without leaving through a join carries a non-nil error
+		if len(b.Preds) != 1 {
+			return false
+		}
+		ok, _ := mustPass(fn, b, -1, func(in ssa.Instruction) bool { return false })
+		if ok {
+			return false
+		}
+		allErr := true
+		for x := range reach(b, nil, nil) {
+			if ret, isRet := x.Instrs[len(x.Instrs)-1].(*ssa.Return); isRet {
+				res := unspill(x, ret)
+				if len(res) < 2 || isNilConst(res[len(res)-1]) {
+					allErr = false
+				}
+				if _, isPhi := res[len(res)-1].(*ssa.Phi); isPhi {
+					allErr = false
+				}
+			}
+		}
+		return allErr
+	}
+	var bad []string
+	n := 0
+	for _, b := range fn.Blocks {
+		iff, ok := b.Instrs[len(b.Instrs)-1].(*ssa.If)
+		if !ok {
+			continue
+		}
+		bin, ok := iff.Cond.(*ssa.BinOp)
+		if !ok {
+			continue
+		}
+		x, y, op := bin.X, bin.Y, bin.Op
+		if _, isK := constIntOf(x); isK {
+			x, y = y, x
+			switch op {
+			case token.LSS:
+				op = token.GTR
+			case token.GTR:
+				op = token.LSS
+			case token.LEQ:
+				op = token.GEQ
+			case token.GEQ:
+				op = token.LEQ
+			}
+		}
+		k, isK := constIntOf(y)
+		d, isLin := linear(x)
+		if !isK || !isLin {
+			continue
+		}
+		// smallest L for which the true edge is taken (upper tests) / the false edge is taken (lower tests)
+		var refusedFrom int64
+		var edge *ssa.BasicBlock
+		switch op {
+		case token.GTR: // L+d > k: true edge for L >= k-d+1
+			refusedFrom, edge = k-d+1, b.Succs[0]
+		case token.GEQ:
+			refusedFrom, edge = k-d, b.Succs[0]
+		case token.LEQ: // L+d <= k false for L >= k-d+1
+			refusedFrom, edge = k-d+1, b.Succs[1]
+		case token.LSS:
+			refusedFrom, edge = k-d, b.Succs[1]
+		default:
+			continue
+		}
+		if !errorOnly(edge) {
+			continue
+		}
+		n++
+		if refusedFrom <= maxSize {
+			bad = append(bad, fmt.Sprintf("%s: messages of %d octets and more are refused", c.pos(bin.Pos()), refusedFrom))
+		}
+	}
+	r.check(len(bad) == 0, rule, "Msg.packBufferWithCompressionMap", c.pos(fn.Pos()), fmt.Sprintf("%d size refusal(s), none at or below MaxMsgSize", n), "%s, but a message of MaxMsgSize (%d) octets is a message that can be sent: Pack fails with an error for a message whose wire form exists", strings.Join(bad, "; "), maxSize)
+}
+
+// signKeptInSplitNumber: where a printer formats a signed number as quotient and remainder of a division by a
+// constant, it has looked at the sign of the number itself: -50 / 100 is 0, and "0.50" has lost the sign.
+func signKeptInSplitNumber(c *Ctx, r *Report, rule string) {
+	r.rule(rule, 1, "no String method prints a signed number as quotient and remainder without a test of its sign")
+	n := 0
+	var bad []string
+	for _, fn := range c.allFuncs() {
+		if fn.Name() != "String" && fn.Name() != "cmToM" {
+			continue
+		}
+		n++
+		for _, f := range localCallees(c, fn, 0) {
+			var quos, rems []*ssa.BinOp
+			allInstrs(f, func(in ssa.Instruction) {
+				b, ok := in.(*ssa.BinOp)
+				if !ok || (b.Op != token.QUO && b.Op != token.REM) {
+					return
+				}
+				bt, ok := b.X.Type().Underlying().(*types.Basic)
+				if !ok || bt.Info()&types.IsInteger == 0 || bt.Info()&types.IsUnsigned != 0 {
+					return
+				}
+				if _, isK := constIntOf(b.Y); !isK {
+					return
+				}
+				// a conversion of an unsigned value that is not moved afterwards is not negative
+				if cv, isCv := b.X.(*ssa.Convert); isCv {
+					if ut, ok := cv.X.Type().Underlying().(*types.Basic); ok && ut.Info()&types.IsUnsigned != 0 {
+						return
+					}
+				}
+				if b.Op == token.QUO {
+					quos = append(quos, b)
+				} else {
+					rems = append(rems, b)
+				}
+			})
+			for _, q := range quos {
+				for _, m := range rems {
+					if !sameExpr(q.X, m.X) {
+						continue
+					}
+					// both reach one formatting call?
+					together := false
+					allInstrs(f, func(in ssa.Instruction) {
+						cl, ok := in.(*ssa.Call)
+						if !ok {
+							return
+						}
+						nm := calleeNameSSA(&cl.Call)
+						if !strings.HasPrefix(nm, "fmt.") {
+							return
+						}
+						hasQ, hasM := false, false
+						for _, a := range cl.Call.Args {
+							s := sliceOf(a)
+							hasQ = hasQ || s[q]
+							hasM = hasM || s[m]
+						}
+						together = together || hasQ && hasM
+					})
+					if !together {
+						continue
+					}
+					signTested := false
+					allInstrs(f, func(in ssa.Instruction) {
+						b, ok := in.(*ssa.BinOp)
+						if !ok {
+							return
+						}
+						switch b.Op {
+						case token.LSS, token.GTR, token.LEQ, token.GEQ:
+						default:
+							return
+						}
+						if k, isK := constIntOf(b.Y); isK && k == 0 && sameExpr(b.X, q.X) {
+							signTested = true
+						}
+						if k, isK := constIntOf(b.X); isK && k == 0 && sameExpr(b.Y, q.X) {
+							signTested = true
+						}
+					})
+					if !signTested {
+						bad = append(bad, fmt.Sprintf("%s: %s / and %% by a constant are formatted together (%s) and the sign of the number is never looked at", c.pos(q.Pos()), describeValue(q.X), fnDisplay(fn)))
+					}
+				}
+			}
+		}
+	}
+	r.check(n > 0 && len(bad) == 0, rule, "String methods", "", fmt.Sprintf("%d functions looked at", n), "%s: for a value between -k and 0 the quotient is 0 and the text has no minus sign, so the record read back from its text has another value (LOC altitudes just below the reference spheroid)", strings.Join(uniqStrings(bad), "; "))
+}
